@@ -21,6 +21,14 @@ EXTENDS GoTypes
 \* null, big.Int is ["null","string"].
 CONSTANT LegacyNull
 
+\* Seeded mutations of forType (MUT_Infer = "none": the code as it is; each other value must be refuted by TLC):
+\*   "stickyOptional"   whether a field is optional is refreshed only for tags that carry options: a field without
+\*                      options inherits the previous field's answer (and drops out of `required`)
+\*   "noNullOmitPtr"    a pointer field tagged omitempty loses "null" (encoding/json omits the nil pointer - but
+\*                      not a pointer to a nil slice / nil map / nil pointer)
+\*   "byteSliceString"  []uint8 and [N]uint8 are described as strings
+CONSTANT MUT_Infer
+
 IntSchema(p) ==
   [type |-> "integer"]
   @@ (IF p \in UnsignedInts THEN [minimum |-> R_0]
@@ -86,15 +94,19 @@ Omit(f) == ~f.exp \/ f.dash = "dash"
 
 RECURSIVE InferCode(_)
 \* the per-struct loop of forType as a fold over VisibleFields
-RECURSIVE Loop(_, _, _, _, _)
-Loop(vf, i, props, order, req) ==
+StripNull(s) == IF "types" \in DOMAIN s /\ Len(s.types) = 2 /\ s.types[1] = "null"
+                 THEN [k \in (DOMAIN s \ {"types"}) \cup {"type"} |-> IF k = "type" THEN s.types[2] ELSE s[k]] ELSE s
+RECURSIVE Loop(_, _, _, _, _, _)
+Loop(vf, i, props, order, req, prevOpt) ==
   IF i > Len(vf) THEN [props |-> props, order |-> order, req |-> req]
   ELSE LET f == vf[i].f
-       IN IF f.emb # "no" \/ Omit(f) THEN Loop(vf, i + 1, props, order, req)
+       IN IF f.emb # "no" \/ Omit(f) THEN Loop(vf, i + 1, props, order, req, prevOpt)
           ELSE LET nm == JName(f)
-                   sch == InferCode(f.t)
+                   sch0 == InferCode(f.t)
+                   sch == IF MUT_Infer = "noNullOmitPtr" /\ f.t.k = "ptr" /\ "omitempty" \in f.opts THEN StripNull(sch0) ELSE sch0
+                   opt == IF MUT_Infer = "stickyOptional" /\ f.opts = {} THEN prevOpt ELSE Optional(f)
                IN Loop(vf, i + 1, (nm :> sch) @@ props, Append(order, nm),
-                       IF Optional(f) THEN req ELSE Append(req, nm))
+                       IF opt THEN req ELSE Append(req, nm), opt)
 \* "Remove PropertyOrder duplicates, keeping the last occurrence"
 RECURSIVE DedupLast(_)
 DedupLast(q) == IF q = <<>> THEN <<>>
@@ -112,12 +124,14 @@ InferCode(t) ==
     [] t.k = "ptr" -> LET s == InferCode(t.e)
                       IN IF t.e.k = "std" THEN (IF LegacyNull THEN s ELSE AddNull(s))   \* the TypeSchemas / initialSchemaMap path
                          ELSE IF "type" \in DOMAIN s THEN AddNull(s) ELSE s   \* "if allowNull && s.Type != ''"
+    [] t.k \in {"slice", "array"} /\ MUT_Infer = "byteSliceString" /\ t.e.k = "prim" /\ t.e.p = "uint8" ->
+                        IF t.k = "slice" THEN [types |-> <<"null", "string">>] ELSE [type |-> "string"]
     [] t.k = "slice" -> IF LegacyNull THEN [type |-> "array", items |-> InferCode(t.e)]
                         ELSE [types |-> <<"null", "array">>, items |-> InferCode(t.e)]
     [] t.k = "array" -> [type |-> "array", items |-> InferCode(t.e), minItems |-> t.n, maxItems |-> t.n]
     [] t.k = "map" -> [type |-> "object", additionalProperties |-> InferCode(t.e)]
     [] t.k = "struct" ->
-         LET r == Loop(VisibleFields(t), 1, EmptyFcn, <<>>, <<>>)
+         LET r == Loop(VisibleFields(t), 1, EmptyFcn, <<>>, <<>>, FALSE)
          IN [type |-> "object", additionalProperties |-> [not |-> EmptyFcn]]
             @@ (IF t.fields = <<>> THEN <<>> ELSE [properties |-> r.props])
             @@ (IF r.order = <<>> THEN <<>> ELSE [propertyOrder |-> DedupLast(r.order)])
